@@ -11,6 +11,8 @@ package main
 //@ func draw
 //@   requires g != nil && wfS(p)
 //@   nomod
+//@   callsite draw
+//@     assumepre wfS(arg1) // a stage's pipeline is one of the registered pipelines (buildPipeline: C18 pipelines-are-inclusions), all of which are well-formed; the recursion ends because inclusion is acyclic (D10)
 //@ func buildSuggestions
 //@   nomod
 
@@ -148,3 +150,36 @@ package main
 //@     invariant c#1 != nil
 //@   callsite Set
 //@     requires #C10.set-splits-at-the-first-equals-sign strIndex(c#2, "=") >= 0 && arg0 == substr(c#2, 0, strIndex(c#2, "=")) && arg1 == boxstr(substr(c#2, strIndex(c#2, "=") + 1, len(c#2)))
+
+// ---- C15: the commands that only read the configuration (list, show, graph) never crash on a loaded
+// configuration (zero-annotation safety sweep; the constant templates are assumed to parse, as the
+// existing tests exercise)
+//@ func newListCommand$1
+//@   requires c != nil && cfgLoaded()
+//@   modifies *
+//@   callsite Must
+//@     assumepre arg1 == nil // the constant list template parses
+//@ func newListCommand$2
+//@   requires c != nil && cfgLoaded()
+//@   modifies *
+//@ func newListCommand$3
+//@   requires c != nil && cfgLoaded()
+//@   modifies *
+//@ func newListCommand$4
+//@   requires c != nil && cfgLoaded()
+//@   modifies *
+//@ func newShowCommand$1
+//@   requires c != nil && cfgLoaded()
+//@   modifies *
+//@   callsite Must
+//@     assumepre arg1 == nil // the constant show template parses
+//@ func newGraphCommand$1
+//@   requires c != nil && cfgLoaded()
+//@   modifies *
+//@ func newValidateCommand$2
+//@   requires c != nil && cfgLoaded()
+//@   modifies *
+// bash completion: loads the configuration and lists the targets; a configuration that does not load yields no suggestions
+//@ func makeApp$1
+//@   requires c != nil && loaderOK(cl) && cl.dst != nil && cl.dst.Variables != nil
+//@   modifies *
